@@ -259,7 +259,7 @@ fn run_cli(case: &Case, path: &PathBuf) -> String {
     fields_tokens(&f)
 }
 
-fn run_case(case: &Case, dir: &Path, out: &mut impl Write) {
+fn run_case(case: &Case, dir: &Path) -> String {
     let path = dir.join("teos.toml");
     write_file(case, &path);
     let r = catch_unwind(AssertUnwindSafe(|| if case.daemon { run_daemon(case, &path) } else { run_cli(case, &path) }));
@@ -274,7 +274,36 @@ fn run_case(case: &Case, dir: &Path, out: &mut impl Write) {
             format!("P {}", m.split_whitespace().collect::<Vec<_>>().join("_"))
         }
     };
-    writeln!(out, "{} OBS {obs}", case.describe()).unwrap();
+    format!("{} OBS {obs}", case.describe())
+}
+
+/// Runs the cases on `threads` workers (each with its own scratch directory, the real code only reads
+/// the path it is given) and writes the lines in the order of the cases.
+fn run_all(cases: &[Case], dir: &Path, out: &mut impl Write) {
+    let threads = std::thread::available_parallelism().map(|n| n.get()).unwrap_or(4).min(16);
+    let dirs: Vec<PathBuf> = (0..threads)
+        .map(|t| {
+            let d = dir.join(format!("t{t}"));
+            std::fs::create_dir_all(&d).expect("cannot create scratch dir");
+            d
+        })
+        .collect();
+    for batch in cases.chunks(threads * 512) {
+        let chunk = (batch.len() + threads - 1) / threads;
+        let results: Vec<Vec<String>> = std::thread::scope(|s| {
+            let handles: Vec<_> = batch
+                .chunks(chunk.max(1))
+                .zip(dirs.iter())
+                .map(|(part, d)| s.spawn(move || part.iter().map(|c| run_case(c, d)).collect::<Vec<String>>()))
+                .collect();
+            handles.into_iter().map(|h| h.join().expect("worker died")).collect()
+        });
+        for lines in results {
+            for l in lines {
+                writeln!(out, "{l}").unwrap();
+            }
+        }
+    }
 }
 
 // ------------------------------------------------------------------------------------------------
@@ -730,10 +759,12 @@ fn main() {
             std::fs::create_dir_all(&dir).expect("cannot create scratch dir");
             let tier = std::env::var("VERIF_TIER").unwrap_or_else(|_| "quick".to_owned());
             let seed = env_u64("VERIF_SEED", 0);
+            let mut cases: Vec<Case> = vec![];
             let exh = {
-                let mut emit = |c: &Case| run_case(c, &dir, &mut out);
+                let mut emit = |c: &Case| cases.push(c.clone());
                 generate(&tier, seed, &mut emit)
             };
+            run_all(&cases, &dir, &mut out);
             writeln!(out, "CFGEXH {exh}").unwrap();
             out.flush().unwrap();
         }
@@ -750,7 +781,7 @@ fn main() {
             for line in inp.lines() {
                 let line = line.unwrap();
                 if let Some(c) = Case::parse(&line) {
-                    run_case(&c, &dir, &mut out);
+                    writeln!(out, "{}", run_case(&c, &dir)).unwrap();
                 }
             }
             out.flush().unwrap();
